@@ -1,1 +1,38 @@
+(* C16 — the LCD filter simplifies style and layout but keeps the text timeline.
+   M = Model/Lcd.v (`lcd cfg d : res doc`, transcription of LCDDocFilter.process and the two clean-up filters),
+   S = Spec/LcdSpec.v.  Every statement is for all documents and all configurations; hypotheses are the
+   well-formedness facts of the canonical model (C15) that the list-based document type does not carry:
+   style dictionaries of regions have unique keys, regions have ids, references name regions of the document.
+   Statements that are false of the faithful model are refuted in Findings/C16.v and proved here as `_partial`
+   under the executable triggers of Model/LcdCases.v. *)
 From TT Require Import Proofs.C16.All.
+
+(* no animation step anywhere in the result *)
+Theorem C16_no_anim : forall c d d', lcd c d = Ok d' -> no_anim d'.
+Proof. exact no_anim_thm. Qed.
+
+(* every region occupies exactly the safe area: origin (sa%, sa%), extent ((100-2sa)%, (100-2sa)%) *)
+Theorem C16_safe_area : forall c d d', lcd c d = Ok d' -> safe_area (c_sa c) d'.
+Proof. exact safe_area_thm. Qed.
+
+(* style keys of elements, regions and initial values are within displayAlign / extent / origin and, as configured,
+   color / backgroundColor / textAlign.
+   Full statement (false: Findings/C16.v C16_whitelist_refuted, finding lcd-position-survives):
+     forall c d d', lcd c d = Ok d' -> region_keys_unique d -> whitelist (c_pta c) (c_color c) (c_bg c) d'.
+   Partial: when tts:position occurs on region elements only. *)
+Theorem C16_whitelist_partial : forall c d d',
+  lcd c d = Ok d' -> region_keys_unique d -> trig_position_content d = false ->
+  whitelist (c_pta c) (c_color c) (c_bg c) d'.
+Proof. exact whitelist_partial_thm. Qed.
+
+(* all references redirected: every region reference of the result names a region of the result *)
+Theorem C16_refs_redirected : forall c d d',
+  lcd c d = Ok d' -> regions_have_ids d -> refs_in_doc d -> refs_resolved d'.
+Proof. exact refs_resolved_thm. Qed.
+
+(* applying the filter twice equals applying it once (any safe area below 50; the configuration allows 0..30) *)
+Theorem C16_idempotent : forall c d d', lcd c d = Ok d' -> region_keys_unique d -> c_sa c < 50 -> lcd c d' = Ok d'.
+Proof. exact idem_thm. Qed.
+
+Print Assumptions C16_no_anim.  Print Assumptions C16_safe_area.  Print Assumptions C16_whitelist_partial.
+Print Assumptions C16_refs_redirected.  Print Assumptions C16_idempotent.
